@@ -99,7 +99,58 @@ def build():
         h.root('one__' + tag, g + '() -> ' + M, '<%s as One>::one()' % M, ('value', A.identity(n)))
         h.root('concat_self__' + tag, g + '(a: &mut %s, b: &%s)' % (M, M), T + '::concat_self(a, b)', ('post', {'a0': A.matmul(a, b)}))
         h.root('inverse_transform_vector__' + tag, g + '(a: &%s, v: %s) -> Option<%s>' % (M, V, V), T + '::inverse_transform_vector(a, v)', ('mat_inverse_vec', n, hom))
+        # the overridden methods themselves (the same specification C01 / C02 use): a point is extended by 1, a direction by 0;
+        # Matrix4 dehomogenises the image of a point, Matrix3 acting on the plane keeps the first two rows (its w row is
+        # (0, 0, 1) for every transform built from scales, rotations and displacements), Matrix3 acting on space is linear
+        pv = sv('a1', hom)
+        tp, tv = mat_apply(tag, a, pv)
+        h.root('transform_point__' + tag, g + '(a: &%s, p: %s) -> %s' % (M, P, P), T + '::transform_point(a, p)', ('value', tp))
+        h.root('transform_vector__' + tag, g + '(a: &%s, v: %s) -> %s' % (M, V, V), T + '::transform_vector(a, v)', ('value', tv))
+        h.root('concat__' + tag, g + '(a: &%s, b: &%s) -> %s' % (M, M, M), T + '::concat(a, b)', ('value', A.matmul(a, b)))
+        h.root('inverse_transform__' + tag, g + '(a: &%s) -> Option<%s>' % (M, M), T + '::inverse_transform(a)', ('mat_inverse', n))
     return h
+
+
+def mat_apply(tag, a, pv):
+    """(image of the point pv, image of the direction pv) under the matrix a acting as the Transform `tag`"""
+    n, hom = len(a), len(pv)
+    if n == hom:
+        img = A.matvec(a, pv)
+        return img, img
+    hp = A.matvec(a, pv + [ONE])
+    tp = [hp[i] / hp[n - 1] for i in range(hom)] if tag == 'm4' else hp[:hom]
+    return tp, A.matvec(a, pv + [ZERO])[:hom]
+
+
+def mat_selfcheck():
+    """Oracle side of `concat(s, t)(p) = s(t(p))` for the matrix transforms, given transform_point / concat as specified
+    above: for points an identity of rational functions for Matrix4 (dehomogenising commutes with the product) and for Matrix3 on
+    space (linear); for Matrix3 on the plane, and for directions under Matrix4, it holds for matrices with last row
+    (0, .., 0, 1) - every transform built from scales, rotations and displacements - and the product of two such matrices
+    is again one."""
+    def affine(m):
+        n = len(m)
+        return [[(ONE if c == n - 1 else ZERO) if r == n - 1 else m[c][r] for r in range(n)] for c in range(n)]
+    for tag, n, hom in (('m3_2d', 3, 2), ('m3_3d', 3, 3), ('m4', 4, 3)):
+        a, b, pv = sm('a0', n), sm('a1', n), sv('a2', hom)
+        fa, fb = (a, b) if n == hom else (affine(a), affine(b))
+        if n != hom:
+            ab = A.matmul(fa, fb)
+            assert all(A.eq(ab[c][n - 1], ONE if c == n - 1 else ZERO) for c in range(n)), 'affine matrices closed under product'
+        # points: general matrices for Matrix4 (projective), affine ones for Matrix3 on the plane
+        pa, pb = (a, b) if tag != 'm3_2d' else (fa, fb)
+        lhs = mat_apply(tag, A.matmul(pa, pb), pv)[0]
+        rhs = mat_apply(tag, pa, mat_apply(tag, pb, pv)[0])[0]
+        assert all(A.eq(x, y) for x, y in zip(lhs, rhs)), 'concat(s,t)(p) = s(t(p)) [%s]' % tag
+        # directions: the w component of the image is dropped, so the identity needs the last row (0, .., 0, 1)
+        lhs = mat_apply(tag, A.matmul(fa, fb), pv)[1]
+        rhs = mat_apply(tag, fa, mat_apply(tag, fb, pv)[1])[1]
+        assert all(A.eq(x, y) for x, y in zip(lhs, rhs)), 'concat(s,t)(v) = s(t(v)) [%s]' % tag
+    return True
+
+
+def check_mat_inverse(run, S, name, spec, kw):
+    check_option_inverse(run, S, name, spec[1])
 
 
 def option_leaves(run, S, name, where, r):
@@ -271,17 +322,18 @@ def check_pair(run, S, name, spec, kw):
 def run(tier):
     run = Run(PROP, tier, 'proof')
     specs.selfcheck()
+    mat_selfcheck()
     PAIRS.clear()
     h = build()
     msyn = h.monomorphise(['f32', 'f64'], bound='<S: BaseFloat>', method_syntax='only', soft=True)
     S, inv, meta = facts.extract(PROP, h.src())
     report_dropped(run, meta, h)
-    run_specs(run, S, h, custom={'inverse': check_inverse, 'inverse_vec': check_inverse, 'mat_inverse_vec': check_mat_inverse_vec, 'to_matrix': check_to_matrix,
+    run_specs(run, S, h, custom={'mat_inverse': check_mat_inverse, 'inverse': check_inverse, 'inverse_vec': check_inverse, 'mat_inverse_vec': check_mat_inverse_vec, 'to_matrix': check_to_matrix,
                                  'commute_point': check_commute, 'commute_vector': check_commute, 'commute_concat': check_pair, 'concat_apply': check_pair})
     run.floor('roots', len(run.roots), len(h.specs))
     run.notes['monomorphic_method_syntax_roots'] = len([n_ for n_ in msyn if n_ in run.roots])
     return run.finish(
-        explanation='For Decomposed with Quaternion, Basis3 and Basis2 rotations: one, transform_vector = R(s v), transform_point = R(s p) + d, concat = (s1 s2, R1 R2, R1(s1 d2) + d1), Mul and concat_self = concat, inverse_transform = (1/s, R^-1, -R^-1(d)/s) and inverse_transform_vector = R^-1(v/s), each Some only under a test "scale ~ 0 is false" whose tolerance operands are the scalar defaults and None only when that test holds (reflexivity gives None for scale = 0); conversion to Matrix3/Matrix4 = [sR | d; 0 1]; conversion commutes with applying and composing, and concat(s,t)(p) = s(t(p)), both checked by comparing the summaries of the two compositions modulo unit rotations. For Matrix3 (2-D, 3-D) and Matrix4: one, concat_self and inverse_transform_vector (None exactly when det = 0, else M^-1 applied to the direction); their other Transform methods are decided under C01/C02.',
+        explanation='For Decomposed with Quaternion, Basis3 and Basis2 rotations: one, transform_vector = R(s v), transform_point = R(s p) + d, concat = (s1 s2, R1 R2, R1(s1 d2) + d1), Mul and concat_self = concat, inverse_transform = (1/s, R^-1, -R^-1(d)/s) and inverse_transform_vector = R^-1(v/s), each Some only under a test "scale ~ 0 is false" whose tolerance operands are the scalar defaults and None only when that test holds (reflexivity gives None for scale = 0); conversion to Matrix3/Matrix4 = [sR | d; 0 1]; conversion commutes with applying and composing, and concat(s,t)(p) = s(t(p)), both checked by comparing the summaries of the two compositions modulo unit rotations. For Matrix3 (2-D, 3-D) and Matrix4: one, concat and concat_self = the matrix product, transform_vector = M (v, 0), transform_point = M (p, 1) dehomogenised (Matrix4) / truncated (Matrix3 on the plane, whose last row is (0, 0, 1) for every transform) / M p (Matrix3 on space), inverse_transform = None exactly on paths that found det = 0 and M^-1 otherwise, inverse_transform_vector likewise applied to the direction; given these, concat(s,t)(p) = s(t(p)) is verified on the specification side as an identity of rational functions (mat_selfcheck).',
         trusted_base=['rustc nightly type checking / trait resolution / MIR construction', 'mirsum abstract interpreter and models', 'approx: X_ne = not X_eq, X_eq(x, x) holds; f32/f64 default_epsilon <= 1e-6 (assumption for the |scale| > 1e-6 clause)', 'rules/algebra.py, rules/specs.py (selfcheck)', 'only the three shipped rotation types are instantiated'],
         not_decided=['the numerical interplay of |scale| > 1e-6 with the default epsilon / ulps tolerance', 'third-party Rotation implementations'],
         exhaustive=True)
